@@ -55,6 +55,7 @@ H={
 'C15-3':'missed at first; MarshalBinary results are now held across later calls (Ctx.Hold)',
 'C16-3':'missed at first; Marshal results are now held across later calls (Ctx.Hold)',
 'C18-3':'missed at first; C18 now appends an instruction through the API after the first marshal (to the built list and to the decoded list) and marshals again',
+'C19-4':'detected in some runs only at first (a sync.Pool buffer changes hands between goroutines only now and then, and the QoS kind was 1/18 of a mixed round); C19 now adds single-kind storm rounds (16 goroutines x 24 items of one kind, for each of the 18 kinds), after which it was detected at VERIF_SEED 1..4',
 'C19-3':'missed at first; cipher/MAC payloads of different goroutines are now adjacent regions of one arena (even regions end-aligned, odd regions start-aligned, neighbours on different goroutines), so a write one octet outside the slice races with the neighbour',
 }
 for k,(what,needs) in S.items():
